@@ -349,7 +349,7 @@ def check_direct(scn):
 
 
 def _column(obj, mode):
-    if mode == "amorph":
+    if mode == "amorph" and hasattr(obj, "as_list"):
         return obj.as_list()
     name = list(obj.indicators.keys())[-1]
     return obj.reading_as_list(name)
@@ -367,6 +367,14 @@ def _make_wrapped(scn, cands):
             shared = {k: v for k, v in kw.items() if k != "length"}
             Amorph(analysis=f, candles=[], args=shared, length=int(kw["length"]) + 3)
             return Amorph(analysis=f, candles=cands, args=shared, length=kw["length"])
+        if scn.get("rehomed"):
+            # a wrapper object that has already calculated on a few candles of its own and is then handed to a Hexital: whatever it
+            # remembers from its first home must not follow it - its column is the function over the candles it lives on NOW
+            from hexital.core.hexital import Hexital
+
+            a = Amorph(analysis=f, candles=build(scn)[: scn["rehomed"]], **({"args": kw} if scn.get("use_args") else kw))
+            a.calculate()
+            return Hexital("oracle", cands, [a])
         if scn.get("use_args"):
             return Amorph(analysis=f, candles=cands, args=kw)
         return Amorph(analysis=f, candles=cands, **kw)
@@ -424,7 +432,7 @@ def check_wrapped(scn):
         j = bad[0]
         return {f"{mode}-live-vs-batch": {"index": j, "observed": {"batch": col_b[max(0, j - 2) : j + 3], "live": col_l[max(0, j - 2) : j + 3]},
                                          "expected": "same column"}}, stats
-    if scn.get("shared_args") and mode == "amorph" and "length" in scn.get("kwargs", {}):
+    if mode == "amorph" and ((scn.get("shared_args") and "length" in scn.get("kwargs", {})) or scn.get("rehomed")):
         # the wrapper must run with the arguments IT was given: its column is the bare function at every index
         f = funcs()[scn["fn"]]
         cs = build(scn)
@@ -439,7 +447,7 @@ def check_wrapped(scn):
 
                 want = round_values(want, round_by=4)   # the wrapper rounds its reading (default round_value)
             if j < len(col_b) and not _same(("ok", col_b[j]), ("ok", want)):
-                return {"amorph-vs-function": {"index": j, "observed": col_b[j], "expected": want, "note": "a sibling wrapper was built from the same args dict first"}}, stats
+                return {"amorph-vs-function": {"index": j, "observed": col_b[j], "expected": want, "note": "the wrapper had calculated on candles of its own before" if scn.get("rehomed") else "a sibling wrapper was built from the same args dict first"}}, stats
     return {}, stats
 
 
@@ -566,6 +574,8 @@ def case_c16_wrapped(rng, idx, params):
            "use_args": rng.random() < 0.4}
     if mode == "amorph" and rng.random() < 0.25:
         scn["shared_args"] = True
+    elif mode == "amorph" and rng.random() < 0.25:
+        scn["rehomed"] = rng.randint(1, 6)
     if mode == "hexital":
         scn["callable"] = fn in TWO_NOLEN or rng.random() < 0.2  # above/below are not in the maps: only the callable form exists
         if (fn in ONE or fn in TWO_NOLEN) and rng.random() < 0.3:
